@@ -179,7 +179,8 @@ def rule_tiling(ctx, py):
 
 def rule_units(ctx, py):
     R = "C17.UNITS"
-    f = py.fn(T + "get_sample_index")
+    from .. import pynorm
+    f = pynorm.unrolled(py.fn(T + "get_sample_index"))     # a scan over a literal (name, finder) table reads like the if-chain
     body = [st for st in f.body if not (isinstance(st, ast.Expr) and isinstance(st.value, ast.Constant))]
     first = body[0]
     ok = isinstance(first, ast.Assign) and pyfe.src(first.targets[0]) == "t" and \
@@ -189,7 +190,8 @@ def rule_units(ctx, py):
     disp = {}
     for n in ast.walk(f):
         if isinstance(n, ast.If) and isinstance(n.test, ast.Compare) and pyfe.src(n.test.left) == "policy" and \
-                isinstance(n.body[0], ast.Return) and len(n.test.ops) == 1 and isinstance(n.test.ops[0], ast.Eq):
+                isinstance(n.body[0], ast.Return) and len(n.test.ops) == 1 and isinstance(n.test.ops[0], ast.Eq) and \
+                isinstance(n.test.comparators[0], ast.Constant):
             disp[ast.literal_eval(n.test.comparators[0])] = pyfe.src(n.body[0].value)
     # the same dispatch written as a lookup table: tbl = {"closest": self.m, ..}; finder = tbl.get(policy) / tbl[policy];
     # return finder(t)
